@@ -1,5 +1,9 @@
 import Ccp.Proofs.Edit
 import Ccp.Proofs.EditLinks
+import Ccp.Proofs.EditFrame
+import Ccp.Proofs.EditMulti
+import Ccp.Proofs.EditPrefix
+import Ccp.Proofs.EditBanner
 /-!
 # C06 — edits change exactly the targeted lines
 
@@ -21,7 +25,9 @@ Property theorems only; helper lemmas and the specification vocabulary live in
 * `Plain cfg ls` := no line of `ls` starts a banner and, under syntax ios, none starts a macro
   (then the final parents are C02's `specParent`); `shiftAfter e p` := `if p ≤ e then p else p + 1`;
   `rank keep j` := number of kept positions below `j` (`Ccp.Proofs.EditLinks`);
-* `Forest`, `ancestors` are the C03 vocabulary.
+* `Forest`, `ancestors` are the C03 vocabulary;
+* the vocabulary of the second part on parent links (`PlainCommitted`, `PlainPayload`, `capturedBy`,
+  `InsertFrame`, `MultiFrame`, `shiftAt`, `noIg`) is introduced where that part begins.
 
 All theorems are about `Ccp.Model.Edit.step`, for all states and payloads.  A state holds
 a list of items (text + identity: the committed line number of the object, `none` for a
@@ -805,5 +811,599 @@ example : posOf exOn.items 3 = some 3 ∧ posOf exOn.items 5 = none := by decide
 /-- refused: two levels deeper; `delete` through a handle on a dirty state -/
 example : (step exOn (.appendToFamily 0 "   x".toList (-1) false)).2 = .error .notImplemented ∧
     (step (step exOff (.append "x".toList)).1 (.delete 0)).2 = .error .dirtyHandle := by decide
+
+/-! ## parent links, second part: the exact frame of an insertion, childless appends,
+`ignore_blank_lines`, list-level inserts, `replace_text` / `re_sub`
+
+Vocabulary (`Ccp.Proofs.EditFrame`, `Ccp.Proofs.EditMulti`):
+
+* `PlainCommitted s` := no uncommitted change, C07's invariant `FreshInv`, auto-commit on, no
+  line of the config starts a banner or (syntax ios) a macro — *with or without*
+  `ignore_blank_lines` (such a state holds no blank line when the option is on,
+  `committed_no_blank`);
+* `PlainPayload s txt` := `txt` starts no banner / macro and is not blank under
+  `ignore_blank_lines` (a blank one is dropped by the commit: `blank_payload_ignored`);
+* `shiftAt c p` := `if p < c then p else p + 1`, the index shift of an insertion at `c`
+  (`shiftAfter e = shiftAt (e + 1)`);
+* `capturedBy infos x c j` : the old line `j ≥ c` is adopted by the line `x` inserted at `c`
+  (read without reference to the tree by `captured_iff`);
+* `InsertFrame s s' c txt` := the texts of `s'` are those of `s` with `txt` added at `c`; lines
+  above `c` keep their parents; an old line `j ≥ c` (now at `j + 1`), other than a comment
+  directly behind the new line, has parent `c` when captured and `shiftAt c (old parent)`
+  otherwise;
+* `insertMarks after n row` / `markFn` : which positions of the list after a list-level
+  insert hold old lines; `sel keep 0` keeps those positions, `rank keep q` is the old
+  position of the old line at new position `q`; `MultiFrame` is the corresponding frame.
+-/
+
+/-- **Who is captured** (tree-free reading of `capturedBy`): the old line `j` is adopted by
+the line `x` inserted at `c` exactly when `x` is a configuration line indented less than `j`,
+`j` is not a comment left unattached under a deeper line, and no configuration line between
+the insertion point and `j` is indented less than `j` — i.e. `j` lies in the stretch
+directly behind the new line, is deeper than it, and was attached above it (or nowhere). -/
+theorem captured_iff (infos : List Info) (x : Info) (c j : Nat) (l : Info) (hl : infos[j]? = some l) :
+    capturedBy infos x c j = true ↔
+      x.isCfg = true ∧ x.indent < l.indent ∧ commentUnderDeeper infos j = false ∧
+      ∀ m lm, c ≤ m → m < j → infos[m]? = some lm → lm.isCfg = true → l.indent ≤ lm.indent :=
+  capturedBy_iff infos x c j l hl
+
+/-- a committed state over a config without banner / macro starts holds no blank line when
+`ignore_blank_lines` is on, and its tree is the parse, with the option off, of its texts -/
+theorem committed_no_blank (s : S) (h : PlainCommitted s) :
+    (s.cfg.ignoreBlank = true → ∀ x ∈ s.texts, isBlank x = false) ∧
+    s.tree = parse (noIg s.cfg) s.texts := by
+  have hnb : s.cfg.ignoreBlank = true → ∀ x ∈ s.texts, nonBlank x = true :=
+    fresh_nonblank s h.clean h.fresh h.plain
+  refine ⟨fun hi x hx => ?_, ?_⟩
+  · have := hnb hi x hx
+    rw [nonBlank_eq] at this
+    cases hb : isBlank x
+    · rfl
+    · rw [hb] at this; cases this
+  · rw [(h.fresh h.clean).1]; exact parse_noIg s.cfg s.texts h.plain hnb
+
+/-- **what the commit does under `ignore_blank_lines`** on a config without banner / macro
+starts: the tree is the one obtained, with the option off, from the non-blank lines -/
+theorem commit_ignore_blank (cfg : Cfg) (ls : List Str) (hi : cfg.ignoreBlank = true) (hp : Plain cfg ls) :
+    parse cfg ls = parse (noIg cfg) (ls.filter (fun x => !isBlank x)) :=
+  parse_ignore_plain cfg ls hi hp
+
+/-- **`ConfigList.insert(k, txt)`**: the parent frame of the insertion at the normalised
+position. -/
+theorem insert_parents (s : S) (k : Int) (txt : Str) (h : PlainCommitted s) (hx : PlainPayload s txt) :
+    InsertFrame s (step s (.insert k txt)).1 (insertPos s.texts.length k) txt := by
+  refine insertFrame_of_step s _ txt true _ h hx (by exact insertPos_le _ _) ?_
+  simp only [Edit.step]
+  rw [pyInsert_eq, texts_length]
+
+/-- **`obj.insert_before(txt)`**: the parent frame of the insertion at the object's position
+`p` — the lines above `p` keep their parents; the object's line and the lines behind it keep
+theirs (shifted) unless they are captured by the new line (`captured_iff`). -/
+theorem objInsertBefore_parents (s : S) (h p : Nat) (txt : Str) (hc : PlainCommitted s) (hx : PlainPayload s txt)
+    (hp : posOf s.items h = some p) :
+    InsertFrame s (step s (.objInsBefore h txt)).1 p txt := by
+  have hpl : p < s.texts.length := ((handle_position s h).1 p hp).1
+  have hb' : (isBlank txt && s.cfg.ignoreBlank) = false := by
+    cases h2 : s.cfg.ignoreBlank
+    · simp
+    · simp [hx.2.2 h2]
+  refine insertFrame_of_step s p txt s.stale _ hc hx (by omega) ?_
+  simp [Edit.step, hp, hb']
+
+/-- **`obj.insert_after(txt)`**: the parent frame of the insertion at `p + 1`. -/
+theorem objInsertAfter_parents (s : S) (h p : Nat) (txt : Str) (hc : PlainCommitted s) (hx : PlainPayload s txt)
+    (hp : posOf s.items h = some p) :
+    InsertFrame s (step s (.objInsAfter h txt)).1 (p + 1) txt := by
+  have hpl : p < s.texts.length := ((handle_position s h).1 p hp).1
+  have hb' : (isBlank txt && s.cfg.ignoreBlank) = false := by
+    cases h2 : s.cfg.ignoreBlank
+    · simp
+    · simp [hx.2.2 h2]
+  refine insertFrame_of_step s (p + 1) txt s.stale _ hc hx (by omega) ?_
+  simp [Edit.step, hp, hb']
+
+/-- **`obj.insert_before(txt)` above a configuration line that is not indented deeper than the
+payload** (in particular: same indent) changes no parent at all — every old line keeps its
+parent, index-shifted; and when both are at the same indent and the payload is not a
+comment, the new line gets the parent of the object (it is a root when the object is). -/
+theorem objInsertBefore_same_indent (s : S) (h p : Nat) (txt : Str) (hc : PlainCommitted s)
+    (hx : PlainPayload s txt) (hp : posOf s.items h = some p)
+    (hcfg : isConfigLine s.cfg (s.texts.getD p []) = true) (hle : indent (s.texts.getD p []) ≤ indent txt) :
+    let s' := (step s (.objInsBefore h txt)).1
+    (∀ j, j < p → parentOf s'.tree j = parentOf s.tree j) ∧
+    (∀ j, p ≤ j → j < s.texts.length → parentOf s'.tree (j + 1) = shiftAt p (parentOf s.tree j)) ∧
+    (indent txt = indent (s.texts.getD p []) → isComment s.cfg txt = false →
+      parentOf s'.tree p = parentOf s.tree p) := by
+  have hpl : p < s.texts.length := ((handle_position s h).1 p hp).1
+  have hb' : (isBlank txt && s.cfg.ignoreBlank) = false := by
+    cases h2 : s.cfg.ignoreBlank
+    · simp
+    · simp [hx.2.2 h2]
+  exact insert_above_cfg s p txt s.stale _ hc hx hpl (by simp [Edit.step, hp, hb']) hcfg hle
+
+/-- **`obj.insert_after(txt)` with a configuration line at the indent of the object's line**
+(a configuration line too): the lines that change parent are exactly the children of the
+object — they become children of the new line; the new line is a sibling of the object (a
+root when the object is one); every other line keeps its parent (a comment directly behind
+the new line excepted). -/
+theorem objInsertAfter_same_indent (s : S) (h p : Nat) (txt : Str) (hc : PlainCommitted s)
+    (hx : PlainPayload s txt) (hp : posOf s.items h = some p)
+    (hcfg : isConfigLine s.cfg (s.texts.getD p []) = true) (heq : indent txt = indent (s.texts.getD p []))
+    (hxc : isConfigLine s.cfg txt = true) :
+    let s' := (step s (.objInsAfter h txt)).1
+    (∀ j, j ≤ p → parentOf s'.tree j = parentOf s.tree j) ∧
+    (∀ j, p < j → j < s.texts.length → ¬ (j = p + 1 ∧ isComment s.cfg (s.texts.getD j []) = true) →
+      parentOf s'.tree (j + 1) = if parentOf s.tree j = p then p + 1 else shiftAt (p + 1) (parentOf s.tree j)) ∧
+    parentOf s'.tree (p + 1) = if parentOf s.tree p = p then p + 1 else parentOf s.tree p := by
+  have hpl : p < s.texts.length := ((handle_position s h).1 p hp).1
+  have hb' : (isBlank txt && s.cfg.ignoreBlank) = false := by
+    cases h2 : s.cfg.ignoreBlank
+    · simp
+    · simp [hx.2.2 h2]
+  exact insert_below_cfg_same s p txt s.stale _ hc hx hpl (by simp [Edit.step, hp, hb']) hcfg heq hxc
+
+/-- **list-level `insert_before(regex, txt)`**: the parent frame of a multiple insertion
+(`MultiFrame`): the inserted copies removed, the old list is back; an old line at new
+position `q` was at `rank keep q`; unless it is a comment directly behind a copy, or its new
+parent is a copy, its old parent is the old position of its new parent. -/
+theorem listInsertBefore_parents (s : S) (row : List Bool) (txt : Str) (hc : PlainCommitted s)
+    (hx : PlainPayload s txt) :
+    MultiFrame s (step s (.listInsBefore false row txt)).1 false row txt := by
+  have hb' : (isBlank txt && s.cfg.ignoreBlank) = false := by
+    cases h2 : s.cfg.ignoreBlank
+    · simp
+    · simp [hx.2.2 h2]
+  exact multiFrame_of_step s false row txt _ hc hx (by simp [Edit.step, hb'])
+
+/-- **list-level `insert_after(regex, txt)`**: the same frame. -/
+theorem listInsertAfter_parents (s : S) (row : List Bool) (txt : Str) (hc : PlainCommitted s)
+    (hx : PlainPayload s txt) :
+    MultiFrame s (step s (.listInsAfter false row txt)).1 true row txt := by
+  have hb' : (isBlank txt && s.cfg.ignoreBlank) = false := by
+    cases h2 : s.cfg.ignoreBlank
+    · simp
+    · simp [hx.2.2 h2]
+  exact multiFrame_of_step s true row txt _ hc hx (by simp [Edit.step, hb'])
+
+/-- **list-level `insert_before` whose regex matches only configuration lines that are not
+indented deeper than the payload** (in particular: same indent): no old line is adopted by a
+copy — every old line's new parent is an old line, and its old parent is that line's old
+position.  No exclusion: a line directly behind a copy is a matched line, not a comment. -/
+theorem listInsertBefore_same_indent (s : S) (row : List Bool) (txt : Str) (hc : PlainCommitted s)
+    (hx : PlainPayload s txt)
+    (hQ : ∀ i, i < s.texts.length → row.getD i false = true →
+      isConfigLine s.cfg (s.texts.getD i []) = true ∧ indent (s.texts.getD i []) ≤ indent txt) :
+    let s' := (step s (.listInsBefore false row txt)).1
+    let keep := markFn (insertMarks false s.texts.length row)
+    ∀ q, q < s'.texts.length → keep q = true →
+      keep (parentOf s'.tree q) = true ∧ parentOf s.tree (rank keep q) = rank keep (parentOf s'.tree q) := by
+  have hb' : (isBlank txt && s.cfg.ignoreBlank) = false := by
+    cases h2 : s.cfg.ignoreBlank
+    · simp
+    · simp [hx.2.2 h2]
+  exact multi_insert_before_same s row txt _ hc hx (by simp [Edit.step, hb']) hQ
+
+/-- **`obj.replace_text(before, after)`**: the lines above the object's position keep their
+parents whatever the new text is; when the new text has the indentation and the kind
+(configuration line / comment / blank) of the old one, no line changes parent at all. -/
+theorem replaceText_parents (s : S) (h p : Nat) (before after : Str) (hc : PlainCommitted s)
+    (hp : posOf s.items h = some p)
+    (hx : PlainPayload s (pyReplace before after (s.texts.getD p []))) :
+    let new := pyReplace before after (s.texts.getD p [])
+    let s' := (step s (.replaceText h before after)).1
+    s'.texts = s.texts.set p new ∧
+    (∀ j, j < p → parentOf s'.tree j = parentOf s.tree j) ∧
+    (info s.cfg new = info s.cfg (s.texts.getD p []) → s'.tree.parents = s.tree.parents) := by
+  have hpl : p < s.texts.length := ((handle_position s h).1 p hp).1
+  exact replace_parents s p _ _ hc hx hpl (by simp only [Edit.step, hp])
+
+/-- **`obj.re_sub(regex, repl)`** that changes the text (non-stale state): the same frame. -/
+theorem reSub_parents (s : S) (h p : Nat) (newText : Str) (hc : PlainCommitted s)
+    (hp : posOf s.items h = some p) (hs : s.stale = false) (hne : newText ≠ s.texts.getD p [])
+    (hx : PlainPayload s newText) :
+    let s' := (step s (.reSub h newText)).1
+    s'.texts = s.texts.set p newText ∧
+    (∀ j, j < p → parentOf s'.tree j = parentOf s.tree j) ∧
+    (info s.cfg newText = info s.cfg (s.texts.getD p []) → s'.tree.parents = s.tree.parents) := by
+  have hpl : p < s.texts.length := ((handle_position s h).1 p hp).1
+  exact replace_parents s p _ _ hc hx hpl
+    (by simp only [Edit.step, hp, hs, Bool.false_eq_true, if_false, if_neg hne])
+
+/-- **every successful `append_to_family`**, whatever branch of the index arithmetic it took
+(child level, same indent — F10b —, childless target): exactly the captured lines change
+parent (`InsertFrame` at the index `appendIndex` computed). -/
+theorem appendToFamily_parents (s : S) (i : Nat) (txt : Str) (ind : Int) (ai : Bool) (hc : PlainCommitted s)
+    (hx : PlainPayload s (familyText (indentOf s.tree i) s.width txt ind ai))
+    (hok : (step s (.appendToFamily i txt ind ai)).2 = .ok ()) :
+    ∃ idx, appendIndex s.tree s.width i (familyText (indentOf s.tree i) s.width txt ind ai) = .ok idx ∧
+      InsertFrame s (step s (.appendToFamily i txt ind ai)).1 (min idx s.texts.length)
+        (familyText (indentOf s.tree i) s.width txt ind ai) := by
+  obtain ⟨_, _, _, idx, h4, h5⟩ := step_appendToFamily_ok s i txt ind ai hok
+  refine ⟨idx, h4, insertFrame_of_step s _ _ true _ hc hx (Nat.min_le_right _ _) ?_⟩
+  rw [h5, pyInsert_eq, insertPos_natCast, texts_length]
+
+/-- **A child-level `append_to_family` to a childless target**: the line goes directly below
+the target and becomes its only child; no old line changes parent — with or without
+`ignore_blank_lines`, for every payload one level deeper than the target (comment payloads
+included), the one exclusion being, as before, a comment directly behind the insertion point.
+The target has to be a configuration line: a comment or a blank line heads no family (the
+new line is then attached to the nearest shallower configuration line above, and may capture
+following lines — `appendToFamily_parents` says which). -/
+theorem appendToFamily_childless_keeps_parents (s : S) (i : Nat) (txt : Str) (ind : Int) (ai : Bool)
+    (hc : PlainCommitted s)
+    (hx : PlainPayload s (familyText (indentOf s.tree i) s.width txt ind ai))
+    (hok : (step s (.appendToFamily i txt ind ai)).2 = .ok ())
+    (hk : children s.tree i = [])
+    (h0 : cfi s.width (indentOf s.tree i) (familyText (indentOf s.tree i) s.width txt ind ai) ≠ some 0)
+    (hcfg : isConfigLine s.cfg (s.texts.getD i []) = true) :
+    let txt' := familyText (indentOf s.tree i) s.width txt ind ai
+    let s' := (step s (.appendToFamily i txt ind ai)).1
+    i < s.texts.length ∧
+    s'.texts = s.texts.take (i + 1) ++ txt' :: s.texts.drop (i + 1) ∧
+    parentOf s'.tree (i + 1) = i ∧
+    (∀ q, q ∈ children s'.tree i ↔ q = i + 1) ∧
+    (∀ j, j ≤ i → parentOf s'.tree j = parentOf s.tree j) ∧
+    (∀ j, i < j → j < s.texts.length → ¬ (j = i + 1 ∧ isComment s.cfg (s.texts.getD j []) = true) →
+      parentOf s'.tree (j + 1) = shiftAfter i (parentOf s.tree j)) := by
+  intro txt' s'
+  obtain ⟨hd, hinv, ha, hp⟩ := hc
+  obtain ⟨hb, hm, hnb⟩ := hx
+  obtain ⟨htree, htexts, _⟩ := hinv hd
+  obtain ⟨_, h2, _, idx, h4, h5⟩ := step_appendToFamily_ok s i txt ind ai hok
+  have hil : i < s.texts.length := by rw [texts_length]; exact h2
+  have hforest : Forest s.tree := by rw [htree]; exact bootstrap_forest _ _
+  have hsz : s.tree.size = s.texts.length := by rw [T.size, ← htexts]
+  -- the index is `i + 1`, the payload is one level deeper
+  have hidx : idx = i + 1 ∧ cfi s.width (indentOf s.tree i) txt' = some 1 := by
+    rcases appendIndex_childless _ _ _ _ idx hk h4 with h | ⟨h1, lp, hlp, hlp'⟩
+    · exact absurd h.1 h0
+    · rw [lastParentLinenum0_childless hforest _ _ _ (by omega) hk hlp] at hlp'
+      exact ⟨hlp', h1⟩
+  have hlt : indent (s.texts.getD i []) < indent txt' := by
+    have := cfi_one_lt _ _ _ hidx.2
+    have hio : indentOf s.tree i = indent (s.texts.getD i []) := by rw [indentOf, ← htexts]
+    omega
+  have hins : pyInsert s.items idx (fresh txt') = s.items.take (i + 1) ++ fresh txt' :: s.items.drop (i + 1) := by
+    rw [pyInsert_eq, hidx.1, insertPos_natCast, Nat.min_eq_left (by rw [← texts_length]; omega)]
+  rw [hins] at h5
+  obtain ⟨f1, f2, f3, f4, f5, f6⟩ := auto_insert_frame s (i + 1) txt' true hd hinv ha hp (by omega) hb hm hnb
+  rw [← h5] at f1 f2 f3 f5 f6
+  -- specification-level facts about the target
+  have hli : (s.texts.map (info s.cfg))[i]? = some (info s.cfg (s.texts.getD i [])) := info_getD s.cfg s.texts i hil
+  have hnochild : ∀ j, i < j → j < s.texts.length → specParent (s.texts.map (info s.cfg)) j ≠ i := by
+    intro j hij hjl hsp
+    have : j ∈ children s.tree i := mem_children.mpr ⟨by omega, by rw [f4 j hjl]; exact hsp, by omega⟩
+    rw [hk] at this; cases this
+  refine ⟨hil, f1, ?_, ?_, ?_, ?_⟩
+  · rw [f3 (i + 1) (by omega)]
+    exact specParent_insert_new_child _ _ i _ hli hcfg hlt
+  · intro q
+    have hsz' : (step s (.appendToFamily i txt ind ai)).1.tree.size = s.texts.length + 1 := by
+      rw [T.size, f2, f1]; simp; omega
+    constructor
+    · intro hq
+      obtain ⟨q1, q2, q3⟩ := mem_children.mp hq
+      rw [hsz'] at q1
+      rw [f3 q q1] at q2
+      exact specParent_insert_only_child _ (info s.cfg txt') i _ hli hcfg hlt
+        (fun j a b => hnochild j a (by simpa using b)) q q3 (by simpa using q1) q2
+    · rintro rfl
+      refine mem_children.mpr ⟨by rw [hsz']; omega, ?_, by omega⟩
+      rw [f3 (i + 1) (by omega)]
+      exact specParent_insert_new_child _ _ i _ hli hcfg hlt
+  · intro j hj; exact f5 j (by omega)
+  · intro j h1 h2' h3
+    rw [f6 j (by omega) h2' (by omega)]
+    have hcap : capturedBy (s.texts.map (info s.cfg)) (info s.cfg txt') (i + 1) j = false := by
+      cases hc : capturedBy (s.texts.map (info s.cfg)) (info s.cfg txt') (i + 1) j with
+      | false => rfl
+      | true =>
+        have := (capturedBy_below _ (info s.cfg txt') i j _ _ hli hcfg (Nat.le_of_lt hlt) (by omega)
+          (info_getD s.cfg s.texts j h2')).mp hc
+        exact absurd this.2.2 (hnochild j h1 h2')
+    rw [hcap, shiftAfter_eq_shiftAt]
+    simp
+
+/-- **The hypothesis of `appendToFamily_keeps_parents` on the children is automatic for every
+indent width** (it was proved for width 1 in `appendToFamily_children_width1`): a successful
+child-level append has classified the target and its last child against the width, and the
+configuration-line children of a line are indented in non-increasing order, so none of them
+is shallower than the payload.  (With width 2, `a` / ` b` + `  n` is refused.) -/
+theorem appendToFamily_children_anywidth (s : S) (i : Nat) (txt : Str) (ind : Int) (ai : Bool)
+    (hc : PlainCommitted s) (hok : (step s (.appendToFamily i txt ind ai)).2 = .ok ())
+    (hk : children s.tree i ≠ [])
+    (h0 : cfi s.width (indentOf s.tree i) (familyText (indentOf s.tree i) s.width txt ind ai) ≠ some 0) :
+    ∀ c, c ∈ children s.tree i → isConfigLine s.cfg (s.texts.getD c []) = true →
+      indent (familyText (indentOf s.tree i) s.width txt ind ai) ≤ indent (s.texts.getD c []) := by
+  obtain ⟨_, _, _, idx, h4, _⟩ := step_appendToFamily_ok s i txt ind ai hok
+  exact appendToFamily_children_deep s i _ idx hc hk h4 h0
+
+/-- **A child-level `append_to_family` to a target with children, in full**: with or without
+`ignore_blank_lines`, for every indent width and every payload (comments included) the line
+goes to `familyEndpoint + 1` and *no old line changes parent* (the comment directly behind the
+insertion point excepted); a payload that is not a comment becomes a child of the target.
+The hypothesis of `appendToFamily_keeps_parents` on the children of the target is gone: it
+follows from the success of the call (`appendToFamily_children_anywidth`). -/
+theorem appendToFamily_keeps_parents_full (s : S) (i : Nat) (txt : Str) (ind : Int) (ai : Bool)
+    (hc : PlainCommitted s)
+    (hx : PlainPayload s (familyText (indentOf s.tree i) s.width txt ind ai))
+    (hok : (step s (.appendToFamily i txt ind ai)).2 = .ok ())
+    (hk : children s.tree i ≠ [])
+    (h0 : cfi s.width (indentOf s.tree i) (familyText (indentOf s.tree i) s.width txt ind ai) ≠ some 0) :
+    let txt' := familyText (indentOf s.tree i) s.width txt ind ai
+    let e := familyEndpoint s.tree i
+    let s' := (step s (.appendToFamily i txt ind ai)).1
+    i ≤ e ∧ e < s.texts.length ∧
+    s'.texts = s.texts.take (e + 1) ++ txt' :: s.texts.drop (e + 1) ∧
+    (∀ j, j ≤ e → parentOf s'.tree j = parentOf s.tree j) ∧
+    (∀ j, e < j → j < s.texts.length → ¬ (j = e + 1 ∧ isComment s.cfg (s.texts.getD j []) = true) →
+      parentOf s'.tree (j + 1) = shiftAfter e (parentOf s.tree j)) ∧
+    (isComment s.cfg txt' = false → parentOf s'.tree (e + 1) = i) := by
+  intro txt' e s'
+  have Hc := fun idx h4 => appendToFamily_children_deep s i txt' idx hc hk h4 h0
+  obtain ⟨hd, hinv, ha, hp⟩ := hc
+  obtain ⟨hb, hm, hnb⟩ := hx
+  obtain ⟨htree, htexts, _⟩ := hinv hd
+  obtain ⟨_, h2, _, idx, h4, h5⟩ := step_appendToFamily_ok s i txt ind ai hok
+  obtain ⟨h6, h7⟩ := appendIndex_child_level _ _ _ _ idx hk h4 h0
+  have hil : i < s.texts.length := by rw [texts_length]; exact h2
+  have hforest : Forest s.tree := by rw [htree]; exact bootstrap_forest _ _
+  have hsz : s.tree.size = s.texts.length := by rw [T.size, ← htexts]
+  have he : e < s.tree.size := familyEndpoint_lt_size hforest (by omega)
+  have hmax := familyEndpoint_max hforest i
+  have hie : i ≤ e := hmax.2 i (List.mem_cons_self ..)
+  have hnbt : s.cfg.ignoreBlank = true → ∀ x ∈ s.texts, nonBlank x = true := fresh_nonblank s hd hinv hp
+  have hst : SpecTree s.tree (s.texts.map (info s.cfg)) := by rw [htree]; exact parse_specTree' s.cfg s.texts hp hnbt
+  have hlt : indent (s.texts.getD i []) < indent txt' := by
+    have := cfi_one_lt _ _ _ h7
+    have hio : indentOf s.tree i = indent (s.texts.getD i []) := by rw [indentOf, ← htexts]
+    show indent (s.texts.getD i []) < indent (familyText (indentOf s.tree i) s.width txt ind ai)
+    omega
+  have hins : pyInsert s.items idx (fresh txt') = s.items.take (e + 1) ++ fresh txt' :: s.items.drop (e + 1) := by
+    rw [pyInsert_eq, h6, insertPos_natCast, Nat.min_eq_left (by rw [← texts_length]; omega)]
+  rw [hins] at h5
+  obtain ⟨f1, f2, f3, f4, f5, f6⟩ := auto_insert_frame s (e + 1) txt' true hd hinv ha hp (by omega) hb hm hnb
+  rw [← h5] at f1 f2 f3 f5 f6
+  have hli : (s.texts.map (info s.cfg))[i]? = some (info s.cfg (s.texts.getD i [])) := info_getD s.cfg s.texts i hil
+  -- the target has a child, so it is a configuration line
+  have hcfg : (info s.cfg (s.texts.getD i [])).isCfg = true := by
+    obtain ⟨c, hc⟩ := List.exists_mem_of_ne_nil _ hk
+    obtain ⟨hcs, hpc, hci⟩ := mem_children.mp hc
+    obtain ⟨lp, _, e1, _, _, e4, _, _⟩ := specTree_parent hst hcs (by omega)
+    rw [hpc, hli] at e1; cases e1; exact e4
+  have H3 := specTree_family_closed hst i _ hli hcfg
+  refine ⟨hie, by omega, f1, fun j hj => f5 j (by omega), ?_, ?_⟩
+  · intro j h1 h2' h3
+    rw [f6 j (by omega) h2' (by omega),
+      capturedBy_closed _ (info s.cfg txt') i e j _ hli hcfg (Nat.le_of_lt hlt) hie H3 h1, shiftAfter_eq_shiftAt]
+    simp
+  · intro hxc
+    replace Hc := Hc idx h4
+    rw [f3 (e + 1) (by omega)]
+    have hget : ∀ (j : Nat) (l : Info), (s.texts.map (info s.cfg))[j]? = some l → l = info s.cfg (s.texts.getD j []) := by
+      intro j l hl
+      have hj : j < s.texts.length := by simpa using (List.getElem?_eq_some_iff.mp hl).1
+      rw [info_getD s.cfg s.texts j hj] at hl; cases hl; rfl
+    exact (specTree_insert_child hst i (info s.cfg txt') hk hxc
+      (by intro li hli'; rw [hget i li hli']; exact hlt)
+      (by intro c l hc hl hcf; rw [hget c l hl] at hcf ⊢; exact Hc c hc hcf)).2.2.1
+
+/-- **A blank payload under `ignore_blank_lines`** (the point excluded by `PlainPayload`): the
+append succeeds, the commit drops the line again — texts and tree are what they were. -/
+theorem blank_payload_ignored (s : S) (i : Nat) (txt : Str) (ind : Int) (ai : Bool) (hc : PlainCommitted s)
+    (hi : s.cfg.ignoreBlank = true)
+    (hok : (step s (.appendToFamily i txt ind ai)).2 = .ok ())
+    (hbl : isBlank (familyText (indentOf s.tree i) s.width txt ind ai) = true)
+    (hb : isBannerStart (familyText (indentOf s.tree i) s.width txt ind ai) = false)
+    (hm : s.cfg.ios = true → isMacroStart (familyText (indentOf s.tree i) s.width txt ind ai) = false) :
+    (step s (.appendToFamily i txt ind ai)).1.texts = s.texts ∧
+    (step s (.appendToFamily i txt ind ai)).1.tree = s.tree := by
+  obtain ⟨_, _, _, idx, _, h5⟩ := step_appendToFamily_ok s i txt ind ai hok
+  rw [h5, pyInsert_eq]
+  exact auto_insert_blank_noop s _ _ true hc hi hbl hb hm
+
+/-- **`delete` keeps the parents of the surviving lines — with or without
+`ignore_blank_lines`** (`delete_keeps_parents` without its `ignoreBlank = false`). -/
+theorem delete_keeps_parents_full (s : S) (i : Nat) (hc : PlainCommitted s) (hi : i < s.texts.length) :
+    let dead := descendantsAndSelf s.tree i
+    let keep : Nat → Bool := fun j => !dead.contains j
+    let s' := (step s (.delete i)).1
+    s'.texts = eraseAll s.texts dead ∧
+    ∀ j, j < s.texts.length → keep j = true →
+      s'.texts[rank keep j]? = s.texts[j]? ∧
+      keep (parentOf s.tree j) = true ∧
+      (¬ (isComment s.cfg (s.texts.getD j []) = true ∧ ∃ j', j = j' + 1 ∧ keep j' = false) →
+        parentOf s'.tree (rank keep j) = rank keep (parentOf s.tree j)) := by
+  intro dead keep s'
+  obtain ⟨hd, hinv, ha, hp⟩ := hc
+  obtain ⟨htree, _, _⟩ := hinv hd
+  have hnb : s.cfg.ignoreBlank = true → ∀ x ∈ s.texts, nonBlank x = true := fresh_nonblank s hd hinv hp
+  have hg : ¬ (s.dirty = true ∨ s.items.length ≤ i) := by rw [hd, ← texts_length]; simp; omega
+  have hstep : (step s (.delete i)).1
+      = autoCommit { s with items := eraseAll s.items (descendantsAndSelf s.tree i), stale := s.stale, dirty := true } := by
+    simp [Edit.step, hg]
+  have hnew : (eraseAll s.items (descendantsAndSelf s.tree i)).map Item.text = eraseAll s.texts dead := by
+    rw [eraseAll_map, items_map_text]
+  obtain ⟨h1, h2⟩ := auto_commit_plain s ha (eraseAll s.items (descendantsAndSelf s.tree i)) s.stale
+    (by rw [hnew]; exact plain_sublist s.cfg (eraseAll_sublist _ _) hp)
+    (by rw [hnew]; exact fun hi x hx => hnb hi x ((eraseAll_sublist _ _).subset hx))
+  rw [hnew, ← hstep] at h1 h2
+  have hmain := parse_delete' s.cfg s.texts i hp hnb
+  simp only at hmain
+  rw [← htree] at hmain
+  refine ⟨h1, fun j hj hkj => ?_⟩
+  obtain ⟨r1, r2, r3⟩ := hmain.2 j hj hkj
+  rw [hmain.1] at r1
+  refine ⟨by rw [h1]; exact r1, r2, fun hex => ?_⟩
+  rw [h2]; exact r3 hex
+
+/-! ## non-vacuity of the second part -/
+
+/-- the example config under `ignore_blank_lines` -/
+def exIb : S := init { exCfg with ignoreBlank := true } true 1 exLines
+
+/-- the bundled hypotheses hold in the example states, with and without `ignore_blank_lines` -/
+example : PlainCommitted exOn ∧ PlainCommitted exIb :=
+  ⟨⟨rfl, init_fresh _ _ _ _, rfl, ⟨by decide, fun _ => by decide⟩⟩,
+   ⟨rfl, init_fresh _ _ _ _, rfl, ⟨by decide, fun _ => by decide⟩⟩⟩
+example : PlainPayload exOn "interface Eth2".toList ∧ PlainPayload exIb "  x".toList ∧
+    ¬ PlainPayload exIb " ".toList :=
+  ⟨⟨by decide, fun _ => by decide, fun _ => by decide⟩, ⟨by decide, fun _ => by decide, fun _ => by decide⟩,
+   fun h => absurd (h.2.2 rfl) (by decide)⟩
+/-- `committed_no_blank` / `commit_ignore_blank`: blank input lines are gone after the parse,
+and the tree is that of the non-blank lines -/
+example : let s := init { exCfg with ignoreBlank := true } true 1 ["a".toList, "".toList, " b".toList, "  ".toList]
+    s.texts = ["a".toList, " b".toList] ∧ s.tree.parents = [0, 0] ∧
+    s.tree = parse (noIg s.cfg) ["a".toList, " b".toList] := by decide
+/-- `insert_parents` / `captured_iff`: `insert(1, "x")` puts an unindented line between
+`interface Eth1` and its children — lines 1 and 3 (old numbering) are captured, line 2 (whose
+parent, line 1, lies behind the insertion point) and line 4 (a root) are not -/
+example : (List.range 5).map (capturedBy (exLines.map (info exCfg)) (info exCfg "x".toList) 1)
+      = [false, true, false, true, false] ∧
+    (step exOn (.insert 1 "x".toList)).1.tree.parents = [0, 1, 1, 2, 1, 5] ∧
+    shiftAt 1 1 = 2 ∧ shiftAt 1 0 = 0 := by decide
+/-- `objInsertAfter_same_indent`: `interface Eth2` placed directly below `interface Eth1` takes
+over its children (old lines 1 and 3), the grandchild (old 2) and `Eth10` keep their parents -/
+example : posOf exOn.items 0 = some 0 ∧ isConfigLine exOn.cfg "interface Eth2".toList = true ∧
+    indent "interface Eth2".toList = indent (exOn.texts.getD 0 []) ∧
+    (step exOn (.objInsAfter 0 "interface Eth2".toList)).1.tree.parents = [0, 1, 1, 2, 1, 5] := by decide
+/-- `objInsertBefore_same_indent`: `interface Eth9` placed directly above `interface Eth10`
+changes no parent -/
+example : posOf exOn.items 4 = some 4 ∧ isConfigLine exOn.cfg (exOn.texts.getD 4 []) = true ∧
+    indent (exOn.texts.getD 4 []) ≤ indent "interface Eth9".toList ∧
+    (step exOn (.objInsBefore 4 "interface Eth9".toList)).1.tree.parents = [0, 0, 1, 0, 4, 5] := by decide
+/-- `listInsertBefore_same_indent` on the rows of `^interface` with the payload `!`: positions
+0 and 5 of the new list hold the copies, the old lines keep their parents -/
+example : insertMarks false 5 [true, false, false, false, true] = [false, true, true, true, true, false, true] ∧
+    rank (markFn (insertMarks false 5 [true, false, false, false, true])) 6 = 4 ∧
+    (step exOn (.listInsBefore false [true, false, false, false, true] "!".toList)).1.tree.parents
+      = [0, 1, 1, 2, 1, 5, 6] := by decide
+/-- `listInsertAfter_parents`: `insert_after(^interface, " x")` — no old line is adopted here
+either (the copies are as deep as the children) -/
+example : (step exOn (.listInsAfter false [true, false, false, false, true] " x".toList)).1.tree.parents
+      = [0, 0, 0, 2, 0, 5, 5] := by decide
+/-- `replaceText_parents` / `reSub_parents`: same indentation and kind, same parents -/
+example : info exCfg "interface Po0".toList = info exCfg "interface Eth10".toList ∧
+    (step exOn (.replaceText 4 "Eth1".toList "Po".toList)).1.tree.parents = exOn.tree.parents ∧
+    (step exOn (.reSub 1 " no ip address".toList)).1.tree.parents = exOn.tree.parents := by decide
+/-- `appendToFamily_childless_keeps_parents`: line 3 (` shutdown`) has no children and is a
+configuration line; the auto-indented payload lands at 4 and is its only child — also under
+`ignore_blank_lines` -/
+example : children exOn.tree 3 = [] ∧ isConfigLine exOn.cfg (exOn.texts.getD 3 []) = true ∧
+    (step exOn (.appendToFamily 3 "x".toList (-1) true)).2 = .ok () ∧
+    (step exOn (.appendToFamily 3 "x".toList (-1) true)).1.tree.parents = [0, 0, 1, 0, 3, 5] ∧
+    children (step exOn (.appendToFamily 3 "x".toList (-1) true)).1.tree 3 = [4] ∧
+    (step exIb (.appendToFamily 3 "x".toList (-1) true)).1.tree.parents = [0, 0, 1, 0, 3, 5] := by decide
+/-- the target must be a configuration line: below a comment the new line is attached to the
+line above the comment, and captures what follows (`appendToFamily_parents`) -/
+example : let s := init exCfg true 1 ["!y".toList, "  c".toList]
+    s.tree.parents = [0, 1] ∧ (step s (.appendToFamily 0 " n".toList (-1) false)).2 = .ok () ∧
+    (step s (.appendToFamily 0 " n".toList (-1) false)).1.tree.parents = [0, 1, 1] ∧
+    capturedBy (s.texts.map (info exCfg)) (info exCfg " n".toList) 1 1 = true := by decide
+/-- `appendToFamily_keeps_parents_full` / `appendToFamily_children_anywidth` with indent
+width 2: a child at an odd indent makes the call fail, otherwise the new line is a child -/
+example : let s := init { exCfg with ios := false } true 2 ["a".toList, " b".toList, "c".toList]
+    children s.tree 0 = [1] ∧
+    (step s (.appendToFamily 0 "  n".toList (-1) false)).2 = .error .notImplemented := by decide
+example : let s := init { exCfg with ios := false } true 2 ["a".toList, "  b".toList, "    d".toList, "c".toList]
+    (step s (.appendToFamily 0 "  n".toList (-1) false)).2 = .ok () ∧
+    (step s (.appendToFamily 0 "  n".toList (-1) false)).1.tree.parents = [0, 0, 1, 0, 4] := by decide
+/-- … and under `ignore_blank_lines`; a comment payload behind a deeper line stays unattached
+while no old line moves -/
+example : (step exIb (.appendToFamily 0 " mtu 9000".toList (-1) false)).1.tree.parents = [0, 0, 1, 0, 0, 5] ∧
+    (let s := init exCfg true 1 ["a".toList, " b".toList, "  c".toList, "d".toList]
+     (step s (.appendToFamily 0 " !n".toList (-1) false)).1.tree.parents = [0, 0, 1, 3, 4]) := by decide
+/-- `blank_payload_ignored` -/
+example : isBlank (familyText (indentOf exIb.tree 0) 1 " ".toList (-1) false) = true ∧
+    (step exIb (.appendToFamily 0 " ".toList (-1) false)).2 = .ok () ∧
+    (step exIb (.appendToFamily 0 " ".toList (-1) false)).1.texts = exIb.texts := by decide
+/-- `delete_keeps_parents_full` under `ignore_blank_lines` -/
+example : (step exIb (.delete 1)).1.tree.parents = [0, 0, 2] := by decide
+
+
+/-! ## configs with banner / macro families: the lines above the edit -/
+
+/-- **No edit changes the parent of a line above the edited position — in any config, banner
+and macro families included.**  State: no uncommitted change, C07's invariant, auto-commit
+on, blank lines kept; *no* restriction on the lines of the config or on the payload.  If the
+step leaves the first `n` lines as they were (for an insertion at `c`: `n = c`; for
+`append_to_family` at `familyEndpoint + 1`: the whole family; for `delete i` / a replacement
+at `i`: `n = i`), these lines keep their parents: pass 1 looks backwards and a banner / macro
+walk runs forwards from its start line. -/
+theorem lines_above_keep_parents (s : S) (op : Op) (hd : s.dirty = false) (hinv : FreshInv s)
+    (ha : s.auto = true) (hig : s.cfg.ignoreBlank = false) (n : Nat) (hn : n ≤ s.texts.length)
+    (hpre : (step s op).1.texts.take n = s.texts.take n) :
+    ∀ j, j < n → parentOf (step s op).1.tree j = parentOf s.tree j :=
+  above_edit_parents s op hd hinv ha hig n hn hpre
+
+/-- a config with a banner family (line 0 with body 1, 2 and closing line 3): an insertion
+below it leaves its links alone, and so does an insertion in the middle of the banner for the
+lines above -/
+def exBanner : S :=
+  init exCfg true 1 ["banner motd ^".toList, " hi".toList, "x".toList, "^".toList, "interface X".toList, " shutdown".toList]
+example : exBanner.tree.parents = [0, 0, 0, 0, 4, 4] ∧
+    (step exBanner (.appendToFamily 4 " mtu 9000".toList (-1) false)).1.tree.parents = [0, 0, 0, 0, 4, 4, 4] ∧
+    (step exBanner (.objInsBefore 2 "y".toList)).1.texts.take 2 = exBanner.texts.take 2 ∧
+    (step exBanner (.objInsBefore 2 "y".toList)).1.tree.parents = [0, 0, 0, 0, 0, 5, 5] := by decide
+
+
+/-! ## configs with banner / macro families: the lines below an insertion at a closed position -/
+
+/-- **One line inserted into a config with banner / macro families** (`InsertFrameW`).  State:
+no uncommitted change, C07's invariant, auto-commit on, blank lines kept; the insertion point
+is not inside a family body (`ClosedAt`: every banner / macro start above it finds its
+terminator above it) and the payload starts no family.  Then the lines above keep their
+parents, and an old line at or below the insertion point keeps its parent (index-shifted) or
+is adopted by the new line — only when captured in the sense of `captured_iff`.  For
+`ConfigList.insert(k, txt)`: -/
+theorem insert_parents_families (s : S) (k : Int) (txt : Str)
+    (hd : s.dirty = false) (hinv : FreshInv s) (ha : s.auto = true) (hig : s.cfg.ignoreBlank = false)
+    (hcl : ClosedAt s.cfg s.texts (insertPos s.texts.length k))
+    (hb : isBannerStart txt = false) (hm : s.cfg.ios = true → isMacroStart txt = false) :
+    InsertFrameW s (step s (.insert k txt)).1 (insertPos s.texts.length k) txt := by
+  refine insertFrameW_of_step s _ txt true _ hd hinv ha hig (insertPos_le _ _) hcl hb hm ?_
+  simp only [Edit.step]
+  rw [pyInsert_eq, texts_length]
+
+/-- … for `obj.insert_before(txt)` / `obj.insert_after(txt)` on the object at position `p`: -/
+theorem objInsert_parents_families (s : S) (h p : Nat) (txt : Str)
+    (hd : s.dirty = false) (hinv : FreshInv s) (ha : s.auto = true) (hig : s.cfg.ignoreBlank = false)
+    (hp : posOf s.items h = some p)
+    (hb : isBannerStart txt = false) (hm : s.cfg.ios = true → isMacroStart txt = false) :
+    (ClosedAt s.cfg s.texts p → InsertFrameW s (step s (.objInsBefore h txt)).1 p txt) ∧
+    (ClosedAt s.cfg s.texts (p + 1) → InsertFrameW s (step s (.objInsAfter h txt)).1 (p + 1) txt) := by
+  have hpl : p < s.texts.length := ((handle_position s h).1 p hp).1
+  have hb' : (isBlank txt && s.cfg.ignoreBlank) = false := by simp [hig]
+  constructor
+  · intro hcl
+    exact insertFrameW_of_step s p txt s.stale _ hd hinv ha hig (by omega) hcl hb hm (by simp [Edit.step, hp, hb'])
+  · intro hcl
+    exact insertFrameW_of_step s (p + 1) txt s.stale _ hd hinv ha hig (by omega) hcl hb hm (by simp [Edit.step, hp, hb'])
+
+/-- … and for every successful `append_to_family`: -/
+theorem appendToFamily_parents_families (s : S) (i : Nat) (txt : Str) (ind : Int) (ai : Bool)
+    (hd : s.dirty = false) (hinv : FreshInv s) (ha : s.auto = true) (hig : s.cfg.ignoreBlank = false)
+    (hok : (step s (.appendToFamily i txt ind ai)).2 = .ok ())
+    (hb : isBannerStart (familyText (indentOf s.tree i) s.width txt ind ai) = false)
+    (hm : s.cfg.ios = true → isMacroStart (familyText (indentOf s.tree i) s.width txt ind ai) = false) :
+    ∃ idx, appendIndex s.tree s.width i (familyText (indentOf s.tree i) s.width txt ind ai) = .ok idx ∧
+      (ClosedAt s.cfg s.texts (min idx s.texts.length) →
+        InsertFrameW s (step s (.appendToFamily i txt ind ai)).1 (min idx s.texts.length)
+          (familyText (indentOf s.tree i) s.width txt ind ai)) := by
+  obtain ⟨_, _, _, idx, h4, h5⟩ := step_appendToFamily_ok s i txt ind ai hok
+  refine ⟨idx, h4, fun hcl => insertFrameW_of_step s _ _ true _ hd hinv ha hig (Nat.min_le_right _ _) hcl hb hm ?_⟩
+  rw [h5, pyInsert_eq, insertPos_natCast, texts_length]
+
+/-- the banner example: positions 4, 5, 6 (below the banner family 0–3) are closed, position 2
+(inside the body) is not; a child appended to `interface X` and a line inserted above it
+change no parent -/
+example : closedAtB exBanner.cfg exBanner.texts 4 = true ∧ closedAtB exBanner.cfg exBanner.texts 6 = true ∧
+    closedAtB exBanner.cfg exBanner.texts 2 = false ∧
+    (step exBanner (.appendToFamily 4 " mtu 9000".toList (-1) false)).1.tree.parents = [0, 0, 0, 0, 4, 4, 4] ∧
+    (step exBanner (.objInsBefore 4 "hostname r".toList)).1.tree.parents = [0, 0, 0, 0, 4, 5, 5] := by decide
+example : ClosedAt exBanner.cfg exBanner.texts 4 := closedAt_of_check _ _ _ (by decide)
+/-- inside the body the hypothesis fails and so does the conclusion: a line holding the
+delimiter ends the banner early, the lines behind it leave the family -/
+example : (step exBanner (.objInsBefore 2 "^".toList)).1.tree.parents = [0, 0, 0, 3, 4, 5, 5] := by decide
 
 end Ccp.C06
